@@ -18,7 +18,7 @@ import (
 var pubsubSites = []string{"pubsub.send.excl", "pubsub.send.counted", "pubsub.send.armed", "pubsub.send.delivered", "pubsub.unsub.spin", "pubsub.unsub.decided",
 	"pubsub.unsub.counted", "pubsub.iter.received", "caster.send.locked", "caster.send.armed", "caster.send.sent", "caster.send.drained", "caster.add.pos.locked", "caster.add.neg.applied"}
 
-var psSubKinds = []string{"manual", "manual", "manual-timer", "manual-immediate", "iter", "iter", "iter-cancel", "iter-cancel-timer", "iter-never", "iter-cancel-then-run"}
+var psSubKinds = []string{"manual", "manual", "manual-timer", "manual-immediate", "iter", "iter", "iter-cancel", "iter-cancel-timer", "iter-never", "iter-cancel-then-run", "iter-precancelled", "iter-panic"}
 
 type psReceipt struct {
 	v     int
@@ -168,6 +168,9 @@ func runPubSub(c *core.Ctx, o psOpts) *psHist {
 					ctx, cancel = mc, mc.cancel
 				}
 				defer cancel()
+				if s.kind == "iter-precancelled" {
+					cancel() // the context is already cancelled when the subscription is made
+				}
 				s.subCall = core.Now()
 				var seq func(func(int) bool)
 				if !guard("SubscribeContext", func() { seq = ps.SubscribeContext(ctx) }) {
@@ -183,6 +186,21 @@ func runPubSub(c *core.Ctx, o psOpts) *psHist {
 					}
 				}()
 				switch s.kind {
+				case "iter-precancelled":
+					s.leaveBegin = s.subCall
+					if r.IntN(2) == 0 {
+						if r.IntN(2) == 0 {
+							time.Sleep(time.Duration(r.IntN(200)) * time.Microsecond)
+						}
+						guard("iterate-precancelled", func() {
+							seq(func(v int) bool {
+								s.receipts = append(s.receipts, psReceipt{v, core.Now()})
+								return true
+							})
+						})
+					}
+					s.leaveEnd = core.Now()
+					return
 				case "iter-never":
 					time.Sleep(time.Duration(r.IntN(800)) * time.Microsecond)
 					s.leaveBegin = core.Now()
@@ -218,10 +236,22 @@ func runPubSub(c *core.Ctx, o psOpts) *psHist {
 					s.leaveBegin = s.subRet
 				}
 				guard("iterate", func() {
+					defer func() {
+						// a loop body that panics is another way of leaving the iterator early (the panic is the
+						// subscriber's own and is recovered here, outside the iterator)
+						if pv := recover(); pv != nil && pv != any(errLoopBody) {
+							panic(pv)
+						}
+					}()
 					seq(func(v int) bool {
 						s.receipts = append(s.receipts, psReceipt{v, core.Now()})
 						if len(s.receipts) >= k {
 							switch s.kind {
+							case "iter-panic":
+								if s.leaveBegin == 0 {
+									s.leaveBegin = core.Now()
+								}
+								panic(errLoopBody)
 							case "iter":
 								if s.leaveBegin == 0 {
 									s.leaveBegin = core.Now()
@@ -516,6 +546,8 @@ func (h *psHist) summary() map[string]any {
 	}
 	return map[string]any{"senders": h.opts.senders, "sends": len(h.sends), "sends_returning_0": zero, "subscriptions": kinds, "receipts": rec, "final_count": h.finalAdd, "round_trip_ok": h.roundOK}
 }
+
+var errLoopBody = fmt.Errorf("deliberate panic in the subscriber's loop body")
 
 // manualCtx is a minimal, contract-abiding context.Context implementation that is not one of the standard library's.
 type manualCtx struct {
